@@ -4,6 +4,7 @@
 mod common;
 mod probe;
 mod astwalk;
+mod c05;
 mod c06;
 mod c07;
 mod c09;
@@ -30,6 +31,7 @@ fn gen_all(id: &str, seed: u64, n: usize, thorough: bool) -> Vec<String> {
         "C15" => c15::gen_cases(seed, n, thorough),
         "C09" => c09::gen_cases(seed, n, thorough),
         "C12" => c12::gen_cases(seed, n, thorough),
+        "C05" => c05::gen_cases(seed, n, thorough),
         "C17" => c17::gen_cases(seed, n, thorough),
         "C07" => c07::gen_cases(seed, n, thorough),
         "C14" => c14::gen_cases(seed, n, thorough),
@@ -48,6 +50,7 @@ fn run_line(id: &str, line: &str) -> String {
         "C15" => c15::run_line(line),
         "C09" => c09::run_line(line),
         "C12" => c12::run_line(line),
+        "C05" => c05::run_line(line),
         "C17" => c17::run_line(line),
         "C07" => c07::run_line(line),
         "C14" => c14::run_line(line),
